@@ -548,7 +548,7 @@ func TestVerifC09(t *testing.T) {
 	scratch := os.Getenv("VERIF_SCRATCH")
 	self, _ := os.Executable()
 
-	n := r.N(12, 640)
+	n := r.N(12, 480)
 	nops := 26
 	r.Cases("hist", n, func(i int, id string, rng *vk.Rand) {
 		seed := rng.Uint64()
